@@ -49,12 +49,17 @@ Proof.
   - now rewrite assoc_update_neq.
 Qed.
 
+Lemma add_blob_next k sz d kc : k_next (add_blob k sz d kc) = N.succ (k_next kc). Proof. reflexivity. Qed.
+Lemma add_blob_cells k sz d kc : k_cells (add_blob k sz d kc) = k_cells kc ++ [(k_next kc, Some d)]. Proof. reflexivity. Qed.
+Lemma add_blob_handles k sz d kc : k_handles (add_blob k sz d kc) = k_handles kc. Proof. reflexivity. Qed.
+Lemma add_blob_nexth k sz d kc : k_nexth (add_blob k sz d kc) = k_nexth kc. Proof. reflexivity. Qed.
+
 Lemma cell_of_upd_blob k f kc c : cell_of (upd_blob k f kc) c = cell_of kc c. Proof. reflexivity. Qed.
 Lemma cell_of_add_blob k sz d kc c :
   assoc (k_next kc) (k_cells kc) = None ->
   cell_of (add_blob k sz d kc) c = if c =? k_next kc then Some d else cell_of kc c.
 Proof.
-  intros Hn. unfold cell_of, add_blob. cbn [k_cells]. rewrite assoc_app. cbn [assoc].
+  intros Hn. unfold cell_of. rewrite add_blob_cells, assoc_app. cbn [assoc].
   rewrite (N.eqb_sym (k_next kc) c). destruct (N.eqb_spec c (k_next kc)) as [->|Hne].
   - now rewrite Hn.
   - now destruct (assoc c (k_cells kc)).
@@ -179,19 +184,19 @@ Proof.
       * inversion H2; subst. destruct (N.eqb_spec k k1); [|discriminate]. inversion H1; subst. cbn in E.
         pose proof (Hf _ _ E2). lia.
       * destruct (N.eqb_spec k k1); [|discriminate]. destruct (N.eqb_spec k k2); [|discriminate]. congruence.
-    + intros k' b' H'. rewrite assoc_add_blob in H'. cbn [k_next add_blob].
+    + intros k' b' H'. rewrite assoc_add_blob in H'. rewrite add_blob_next.
       destruct (assoc k' (k_blobs kc)) as [x|] eqn:E'.
       * inversion H'; subst. pose proof (Hf _ _ E'). lia.
       * destruct (k =? k'); [|discriminate]. inversion H'; subst. cbn. lia.
-    + intros c Hc'. cbn [k_next k_cells add_blob] in *. rewrite assoc_app. rewrite Hc by lia. cbn.
+    + intros c Hc'. rewrite add_blob_next in Hc'. rewrite add_blob_cells, assoc_app. rewrite Hc by lia. cbn.
       destruct (N.eqb_spec (k_next kc) c); [lia|auto].
-    + intros h c off Hh'. cbn [k_handles k_next add_blob] in *. pose proof (Hh _ _ _ Hh'). lia.
-    + intros h Hh'. cbn [k_handles k_nexth add_blob] in *. auto.
-  - intros h c off Hh'. cbn [k_handles add_blob]. eauto.
+    + intros h c off Hh'. rewrite add_blob_handles in Hh'. rewrite add_blob_next. pose proof (Hh _ _ _ Hh'). lia.
+    + intros h Hh'. rewrite add_blob_nexth in Hh'. rewrite add_blob_handles. auto.
+  - intros h c off Hh'. rewrite add_blob_handles. eauto.
   - intros c Hlt Hc'. rewrite Hcell. destruct (N.eqb_spec c (k_next kc)); [lia|auto].
   - intros k' b' H'. right. exists b'. split; auto. rewrite assoc_add_blob. now rewrite H'.
-  - cbn. lia.
-  - cbn. lia.
+  - rewrite add_blob_next. lia.
+  - rewrite add_blob_nexth. lia.
 Qed.
 
 Lemma GT_upd k f kc : CellInv kc -> (forall b, b_cell (f b) = b_cell b) -> GT kc (upd_blob k f kc).
@@ -201,7 +206,7 @@ Proof.
                   exists b0, assoc k' (k_blobs kc) = Some b0 /\ b_cell b0 = b_cell b').
   { intros k' b' H'. rewrite upd_blob_blobs in H'. destruct (N.eq_dec k' k) as [->|Hne].
     - rewrite assoc_update_eq in H'. destruct (assoc k (k_blobs kc)) as [b0|]; [|discriminate].
-      inversion H'; subst. exists b0. split; auto. now rewrite Hfc.
+      inversion H'; subst. exists b0. split; auto; now rewrite Hfc.
     - rewrite assoc_update_neq in H' by auto. eauto. }
   assert (Hfwd : forall k' b0, assoc k' (k_blobs kc) = Some b0 ->
                  exists b', assoc k' (k_blobs (upd_blob k f kc)) = Some b' /\ b_cell b' = b_cell b0).
@@ -222,8 +227,8 @@ Proof.
   - intros h c off Hh'. eauto.
   - intros c _ Hc'. exact Hc'.
   - intros k' b0 H0. right. now apply Hfwd.
-  - cbn. lia.
-  - cbn. lia.
+  - unfold upd_blob. cbn. lia.
+  - unfold upd_blob. cbn. lia.
 Qed.
 
 (* a write through a live cell *)
@@ -274,8 +279,8 @@ Proof.
     rewrite H'. cbn. eauto.
   - intros c _ Hc'. exact Hc'.
   - intros k b H. right. eauto.
-  - cbn. lia.
-  - cbn. lia.
+  - unfold set_off. cbn. lia.
+  - unfold set_off. cbn. lia.
 Qed.
 
 Lemma GT_add_handle c kc : CellInv kc -> c < k_next kc -> GT kc (fst (add_handle c kc)).
